@@ -75,8 +75,23 @@ class Lit:
         return 'Lit(%s)' % self.txt
 
 
+class Verb:
+    """A partial verbatim fragment: Python code between backticks, inserted untouched. It creates no symbol, so every
+    series it reads must also be mentioned by an ordinary term of the program."""
+    __slots__ = ('code',)
+
+    def __init__(self, code):
+        self.code = code
+
+    def text(self):
+        return '`%s`' % self.code
+
+    def __repr__(self):
+        return 'Verb(%s)' % self.code
+
+
 class Eq:
-    """lhs: Term (kind 'v'); ctx: expression over PH0..; leaves: list of Term/Lit."""
+    """lhs: Term (kind 'v'); ctx: expression over PH0..; leaves: list of Term/Lit/Verb."""
 
     def __init__(self, lhs, ctx, leaves):
         self.lhs, self.leaves = lhs, list(leaves)
@@ -88,7 +103,14 @@ class Eq:
 
     def ref_text(self):
         """Context with literals substituted and terms left as placeholders."""
-        return _PH.sub(lambda m: self.leaves[int(m.group(1))].txt if isinstance(self.leaves[int(m.group(1))], Lit) else m.group(0), self.ctx)
+        def sub(m):
+            leaf = self.leaves[int(m.group(1))]
+            if isinstance(leaf, Lit):
+                return leaf.txt
+            if isinstance(leaf, Verb):
+                return leaf.code  # inserted textually, exactly as written (no parentheses are added)
+            return m.group(0)
+        return _PH.sub(sub, self.ctx)
 
     def text(self):
         return '%s = %s' % (self.lhs.text(), self.rhs_text())
@@ -166,7 +188,7 @@ class Program:
 
 # --------------------------------------------------------------------------- alphabets
 
-S1_NAMES = ['X', 'x1', '_u', 'is_open', 'Pin', 'not_X', 't', 'exp', 'max', 'log', 'self', 'np', 'e5', 'in_', 'Ta', 'if_', 'lambda_x', 'X_1_', 'abs']
+S1_NAMES = ['X', 'x1', '_u', 'is_open', 'Pin', 'not_X', 't', 'exp', 'max', 'log', 'self', 'np', 'e5', 'in_', 'Ta', 'if_', 'lambda_x', 'X_1_', 'abs', '_g_', '__c_', '_', '__x__', 'x__']
 S1_KINDS = [('v', False), ('p', False), ('e', False), ('p', True), ('e', True)]
 S1_IDX = [(0, 'none'), (0, 'plain'), (-1, 'plain'), (-2, 'spaced'), (1, 'plus'), (1, 'plain'), (-10, 'plain'), (3, 'lspace'), (2, 'rspace')]
 S1_CTX = ['PH0', '2 * PH0 - 1', '-PH0 ** 2', 'max(PH0, 0) + exp(PH0)', 'PH0 if PH0 > 0 else -PH0']
@@ -184,6 +206,23 @@ def s1():
                     yield Program([Eq(lhs, ctx, [term])], 'S1')
                 if kind == 'v':
                     yield Program([Eq(Term(nm, 'v', off, form), '2 * PH0', [Term('W', 'v', -1)])], 'S1-lhs')
+
+
+SV_FRAGMENTS = [
+    'self._W[t]', 'self._W[t-1]', 'self._W[t - 1]', "self['W', 2001]", 'self._W[t]  +  1', '( self._W[t] )', 'max( self._W[t],  0 )',
+    "{'hi  lo': 2.0, 'hi lo': 3.0}['hi  lo']", "len('a   b')", 'self._W[t] if self._W[t-1] > 0 else -1', 'float(  self._W[t]  )', 'np.exp( self._W[t] )',
+]
+SV_CTX = ['PH0 + PH1', '2 * PH0 - PH1 / PH0', 'PH1 - (PH0)', 'max(PH0, PH1)']
+
+
+def sv():
+    """Partial verbatim fragments inside ordinary equations: every fragment x every context (W is also mentioned as an ordinary term)."""
+    for frag in SV_FRAGMENTS:
+        for ctx in SV_CTX:
+            # the ordinary mention of W carries the lag, so that the fragment's own W[t-1] is inside the span
+            yield Program([Eq(Term('Y'), ctx, [Verb(frag), Term('W', 'v', -1)])], 'SV')
+            yield Program([Eq(Term('Y'), ctx + ' + PH2', [Verb(frag), Term('W', 'v', -1), Term('W')])], 'SV')
+    yield Program([Eq(Term('Y'), 'PH0 * PH1', [Verb('self._W[t]'), Verb('self._W[t-1]')]), Eq(Term('Z'), 'PH0 + PH1', [Term('W', 'v', -1), Term('Y')])], 'SV')
 
 
 S2_LEAVES = [
